@@ -39,6 +39,17 @@ def base_models():
     for sp in F.fac_specs("quick"):
         if sp["label"] in ("fac:2:per-task:two-conveyor:two:both", "fac:2:shared:one-cap2:plain:both"):
             out.append(sp)
+    # individually absent resources (a worker absent while holding a task and while idle; an absent facility)
+    sp = F.with_teams({"tasks": [{"name": "T0", "work": 3.0}, {"name": "T1", "work": 1.0}], "links": [[0, 1, "FS"]]}, "POOL2")
+    sp["teams"][0]["workers"][0]["absence"] = [1, 2]
+    sp["teams"][0]["workers"][1]["absence"] = [0, 3]
+    out.append(sp)
+    for sp0 in F.fac_specs("quick"):
+        if sp0["label"] == "fac:2:per-task:one-cap2:two:both":
+            sp = dict(sp0, workplaces=[dict(wp, facilities=[dict(f) for f in wp["facilities"]]) for wp in sp0["workplaces"]])
+            sp["workplaces"][0]["facilities"][0]["absence"] = [1]
+            sp["workplaces"][0]["facilities"][1]["absence"] = [0, 2]
+            out.append(sp)
     # nested product, child first (FS) so that the run completes
     names = ["T0", "T1"]
     out.append({"tasks": [{"name": "T0", "work": 1.0, "nf": True}, {"name": "T1", "work": 2.0, "nf": True, "due": 5}], "links": [[0, 1, "FS"]],
@@ -194,7 +205,7 @@ def run(tier, seed):
     col = engines.fanout(items, work, seed=seed, chunks_per_proc=4)
     meta = {
         "level": "model_checking",
-        "rule": "breadth-first search over operation histories up to depth %d on real projects (7 base models: FS chain, parallel with due times, automatic task, facility+conveyor, "
+        "rule": "breadth-first search over operation histories up to depth %d on real projects (9 base models: FS chain, parallel with due times, automatic task, individually absent workers / facilities, facility+conveyor, "
         "shared component, nested product) over the alphabet simulate(full | max_time 0,1,2 | resume with each flag pair, absolute and relative max_time) x absence {[],[1]}, "
         "backward_simulate x due-time flag x reverse flag x absence, initialize(), reverse_log_information(); every history is replayed on fresh objects, states are de-duplicated on "
         "the complete dump; after every operation all per-step logs must have one common length equal to project.time, and at every 'recorded' phase of every inner simulate the "
